@@ -268,6 +268,8 @@ def check(rep, F, tier, replay=None):
                 root_key = F.key(fid).split("::{closure")[0]
                 if root_key not in tab["rng_allowed_in"]:
                     rep.violation("RNG", "%s|%s" % (root_key, to), "%s calls %s on a build path: repeated builds are no longer deterministic" % (root_key, to), {})
+    from ruleutil import ord_eq_rule
+    ord_eq_rule(rep, F)
     return rep.finish(
         EXPLANATION,
         ["BTreeSet/HashSet::insert returns true exactly when the element was absent (std)", "Rc<T>'s Eq/Ord/Hash delegate to T", "JSON/CBOR readers of Vec<T> preserve element order"],
